@@ -7,7 +7,8 @@
 (* sleeping locker = {dequeue it} in one step.  Each locker performs one lock (read or write, timed or not) and, when      *)
 (* admitted, one unlock.                                                                                                   *)
 EXTENDS Naturals, Integers, Sequences, FiniteSets, TLC
-CONSTANTS T, Mode, Timed, Kind
+CONSTANTS T, Mode, Timed, Kind, PeekUnlock
+\* PeekUnlock = TRUE models rwlock::unlock() as it was before the repair (choose by a peek at the head, then wake "readers only")
 \* Mode[t] \in {"r","w"}; Timed \subseteq T may time out / be interrupted while asleep; Kind \in {"rw","qrw"}
 None == "none"
 VARIABLES state, mtx, q, qs, qu, pc, reason, res, inside
@@ -43,12 +44,19 @@ RwUnlockMtx(t) == /\ Kind = "rw" /\ pc[t] = "held" /\ mtx = None /\ mtx' = t /\ 
                   /\ UNCHANGED <<state, q, qs, qu, reason, res>>
 RwUnl(t) == /\ pc[t] = "unl"
             /\ state' = IF state > 0 THEN state - 1 ELSE state + 1
-            /\ Goto(t, IF state' = 0 /\ q # <<>> THEN (IF Mode[Head(q)] = "w" THEN "notify1" ELSE "notifyR") ELSE "unl_end")
+            /\ Goto(t, IF state' = 0 /\ q # <<>>
+                         THEN (IF PeekUnlock THEN (IF Mode[Head(q)] = "w" THEN "notify1" ELSE "notifyR") ELSE "notifyF")
+                         ELSE "unl_end")
             /\ UNCHANGED <<mtx, q, qs, qu, reason, res, inside>>
 NotifyHead == /\ q' = Tail(q) /\ reason' = [reason EXCEPT ![Head(q)] = "notified"]
 RwNotify1(t) == /\ pc[t] = "notify1"
                 /\ IF q = <<>> THEN UNCHANGED <<q, reason>> /\ Goto(t, "unl_end")
                    ELSE NotifyHead /\ pc' = [pc EXCEPT ![Head(q)] = "relock", ![t] = "unl_end"]
+                /\ UNCHANGED <<state, mtx, qs, qu, res, inside>>
+\* repaired unlock: wake the head whoever it is now; continue with the readers behind it only if a reader was woken
+RwNotifyF(t) == /\ pc[t] = "notifyF"
+                /\ IF q = <<>> THEN UNCHANGED <<q, reason>> /\ Goto(t, "unl_end")
+                   ELSE NotifyHead /\ pc' = [pc EXCEPT ![Head(q)] = "relock", ![t] = IF Mode[Head(q)] = "r" THEN "notifyR" ELSE "unl_end"]
                 /\ UNCHANGED <<state, mtx, qs, qu, res, inside>>
 RwNotifyR(t) == /\ pc[t] = "notifyR"
                 /\ IF q = <<>> \/ Mode[Head(q)] # "r" THEN Goto(t, "unl_end") /\ UNCHANGED <<q, reason>>
@@ -102,7 +110,7 @@ Expire(t) == /\ t \in Timed /\ pc[t] = "sleeping"
              /\ UNCHANGED <<state, mtx, res, inside>>
 Finished == (\A t \in T : pc[t] \in {"done", "sleeping"}) /\ UNCHANGED vars
 Next == \/ \E t \in T : \/ RwLockMtx(t) \/ RwFirst(t) \/ RwWait(t) \/ RwWoken(t) \/ RwAdmit(t) \/ RwUnlockMtx(t) \/ RwUnl(t)
-                        \/ RwNotify1(t) \/ RwNotifyR(t) \/ RwUnlEnd(t)
+                        \/ RwNotify1(t) \/ RwNotifyF(t) \/ RwNotifyR(t) \/ RwUnlEnd(t)
                         \/ QFast(t) \/ QSlowLock(t) \/ QLoop(t) \/ QFail(t) \/ QUnlock(t) \/ QUniqueLock(t) \/ QSharedLock(t) \/ QWake(t)
                         \/ Expire(t)
         \/ Finished
@@ -110,7 +118,7 @@ Spec == Init /\ [][Next]_vars
 (* ================= properties ================= *)
 Writers == {t \in inside : Mode[t] = "w"}
 WriterExclusive == Writers # {} => Cardinality(inside) = 1
-StateMatchesHolders == (mtx = None /\ \A t \in T : pc[t] \notin {"unl", "notify1", "notifyR", "unl_end", "qu_lock", "qs_lock", "qwake"})
+StateMatchesHolders == (mtx = None /\ \A t \in T : pc[t] \notin {"unl", "notify1", "notifyF", "notifyR", "unl_end", "qu_lock", "qs_lock", "qwake"})
                           => (IF Writers # {} THEN state = -1 ELSE state = Cardinality(inside))
 \* a failed lock left nothing behind: once everybody is done or asleep and nobody holds the lock, nobody is asleep
 AtRest == \A t \in T : pc[t] \in {"done", "sleeping"}
